@@ -58,6 +58,26 @@ pub fn handle(op: &str, req: &Value) -> Option<Value> {
                 "release_by_handle" => { lm.release_by_handle(req["handle"].as_u64().unwrap_or(0)); json!(null) },
                 "cleanup_expired" => json!({"removed": lm.cleanup_expired()}),
                 "lock_holder" => json!({"holder": lm.lock_holder(&kname(&req["key"]))}),
+                "release_by_handle_with_wait_cleanup" | "cleanup_expired_with_wait_cleanup" => {
+                    // every transaction of the table waits for, and is waited for by, an outside transaction
+                    use tensor_chain::deadlock::WaitForGraph;
+                    let g = WaitForGraph::new();
+                    let txs: Vec<u64> = req["table"]["locks"].as_array().into_iter().flatten().map(|l| l["tx"].as_u64().unwrap_or(0)).collect();
+                    for t in &txs {
+                        g.add_wait(*t, u64::MAX - 1, None);
+                        g.add_wait(u64::MAX - 2, *t, None);
+                    }
+                    let removed = if req["lockop"].as_str() == Some("release_by_handle_with_wait_cleanup") {
+                        lm.release_by_handle_with_wait_cleanup(req["handle"].as_u64().unwrap_or(0), &g);
+                        0
+                    } else {
+                        lm.cleanup_expired_with_wait_cleanup(&g)
+                    };
+                    let mut still: Vec<u64> = txs.iter().copied().filter(|t| !g.waiting_for(*t).is_empty() || !g.waiting_on(*t).is_empty()).collect();
+                    still.sort_unstable();
+                    still.dedup();
+                    json!({"removed": removed, "still_in_graph": still})
+                },
                 other => json!({"error": format!("unknown lock op {other}")}),
             };
             json!({"before": before, "after": dump(&lm), "result": result})
